@@ -523,7 +523,7 @@ Section Sync.
   Definition max_fetches_per_depth : Z := 16384.
 
   (* returns (state, node paths+hashes in pop order, code hashes in pop order) *)
-  Fixpoint missing_go (q : list (Z * qitem)) (max count : N) (s : sync)
+  Fixpoint missing_go (mfd : Z) (q : list (Z * qitem)) (max count : N) (s : sync)
            (ns : list (list N * list N)) (cs : list (list N))
     : sync * list (list N * list N) * list (list N) :=
     match q with
@@ -532,19 +532,22 @@ Section Sync.
         if negb (max =? 0) && negb (count <? max) then (set_queue s q, rev ns, rev cs)
         else
           let depth := prio_depth p in
-          if Z.ltb max_fetches_per_depth (fget depth (fetches s)) then (set_queue s q, rev ns, rev cs)
+          if Z.ltb mfd (fget depth (fetches s)) then (set_queue s q, rev ns, rev cs)
           else
             let s1 := set_fetches s (fadd depth 1 (fetches s)) in
             match it with
-            | QCode h => missing_go rest max (count + 1) s1 ns (h :: cs)
+            | QCode h => missing_go mfd rest max (count + 1) s1 ns (h :: cs)
             | QNode path =>
                 match aget path (nreqs s1) with
-                | None => missing_go rest max count s1 ns cs            (* log.Error, continue *)
-                | Some r => missing_go rest max (count + 1) s1 ((path, nr_hash r) :: ns) cs
+                | None => missing_go mfd rest max count s1 ns cs            (* log.Error, continue *)
+                | Some r => missing_go mfd rest max (count + 1) s1 ((path, nr_hash r) :: ns) cs
                 end
             end
     end.
-  Definition missing (s : sync) (max : N) := missing_go (queue s) max 0 s [] [].
+  (* Missing with the per-depth bound as a parameter (the Go constant maxFetchesPerDepth);
+     the item is PEEKED, the throttle test may leave it in the queue, and only then popped *)
+  Definition missing_b (mfd : Z) (s : sync) (max : N) := missing_go mfd (queue s) max 0 s [] [].
+  Definition missing (s : sync) (max : N) := missing_b max_fetches_per_depth s max.
 
   (* ---- the delivery layer (eth/protocols/snap/sync.go) ---- *)
 
